@@ -11,6 +11,7 @@ import (
 	"encoding/json"
 	"flag"
 	"fmt"
+	"hash/crc32"
 	"os"
 	"os/exec"
 	"strings"
@@ -109,7 +110,8 @@ func main() {
 		}
 		var sub *substitution
 		if *flagSubst != 0 {
-			sub = newSubstitution(*flagSubst+int64(n), *flagPool)
+			// seeded by the scenario's id, so that a single scenario re-run alone gets the same strings
+			sub = newSubstitution(*flagSubst*1000003+int64(crc32.ChecksumIEEE([]byte(id))), *flagPool)
 		}
 		if !*flagChild && touchesRegistry(ops) {
 			// the decoration registry is process-global and only grows: a scenario
